@@ -496,10 +496,22 @@ impl Interp {
                     detail["step"] = json!(k);
                     detail["op"] = jget(s, "o").clone();
                     rep.mismatch(&format!("{}:{}", self.cfg.kind, aspect), idx, beh, detail);
+                    return;
+                }
+                // outside this check's property: a disagreement in the projected state / statistics does not
+                // disturb the id mapping, so the replay goes on (a later consequence may concern this property);
+                // a disagreement in the records themselves ends the behaviour
+                if aspect.starts_with("proj:") && aspect != "proj:tracks" && aspect != "proj:unknown-track"
+                    || ["stats", "idle", "epoch", "wasted:ring", "wasted:fields"].contains(&aspect.as_str())
+                {
+                    rep.count("continued_outside_focus", 1);
+                    if let Some(ctl) = &self.ctl {
+                        ctl.start_gating(run.drv.main_uid());
+                    }
                 } else {
                     rep.count("abandoned_outside_focus", 1);
+                    return;
                 }
-                return;
             }
             before = jget(s, "proj").clone();
         }
